@@ -55,7 +55,7 @@ impl<B: Buffer> Editor<B> {
 //@     ensures valid_utf8(self.line_bytes()), self.line_bytes().len() <= self.cap()
 //@ { }
     pub fn new(buffer: B) -> Self {
-//@ ensures r.wf(), r.line() == Seq::<char>::empty(), r.line_bytes() == Seq::<u8>::empty(), r.cur() == 0, r.cap() == buffer.bytes().len(),   // [C05,C01,C06,C02,C03,C11,C17]
+//@ ensures r.wf(), r.line() == Seq::<char>::empty(), r.line_bytes() == Seq::<u8>::empty(), r.cur() == 0, r.cap() == buffer.bytes().len(),   // [C05,~C01,~C06,~C02,C03,~C11,~C17]
 //@ ---
 //@ proof { assert(buffer.bytes().subrange(0, 0) =~= Seq::<u8>::empty()); }
         Self {
@@ -77,7 +77,7 @@ impl<B: Buffer> Editor<B> {
 //@     // bytes behind the merged continuation alone)
 //@     forall|req: Request<'_>, a: &mut Autocompletion<'_>| #[trigger] f.ensures((req, a), ()) ==> crate::autocomplete::ac_api_only(a),
 //@ ensures
-//@     final(self).wf(), final(self).cap() == old(self).cap(),   // [C03,C11,C01,C02,C05,C06,C17]
+//@     final(self).wf(), final(self).cap() == old(self).cap(),   // [C03,C11,~C01,~C02,C05,~C06,~C17]
 //@     // C11: nothing happens unless the line up to the blanks right of the cursor is a single partially typed word
 //@     ac_word(old(self).line_bytes().subrange(0, old(self).ac_req_len())) is None ==>
 //@         final(self).line_bytes() == old(self).line_bytes() && final(self).cur() == old(self).cur(),   // [C11]
@@ -234,8 +234,8 @@ impl<B: Buffer> Editor<B> {
 
     pub fn clear(&mut self) {
 //@ requires old(self).wf_mem(),
-//@ ensures final(self).wf(), final(self).line() == Seq::<char>::empty(), final(self).line_bytes() == Seq::<u8>::empty(),   // [C01,C02,C03,C05,C06,C11,C17]
-//@     final(self).cur() == 0, final(self).cap() == old(self).cap(),   // [C05,C01,C06]
+//@ ensures final(self).wf(), final(self).line() == Seq::<char>::empty(), final(self).line_bytes() == Seq::<u8>::empty(),   // [~C01,~C02,C03,C05,~C06,~C11,~C17]
+//@     final(self).cur() == 0, final(self).cap() == old(self).cap(),   // [C05,~C01,~C06]
         self.valid = 0;
         self.cursor = 0;
 //@ proof { assert(self.buffer.bytes().subrange(0, 0) =~= Seq::<u8>::empty()); }
@@ -250,17 +250,17 @@ impl<B: Buffer> Editor<B> {
     pub fn insert(&mut self, text: &str) -> Option<&str> {
 //@ requires old(self).wf(),
 //@ ensures
-//@     final(self).wf(), final(self).cap() == old(self).cap(),   // [C01,C02,C03,C05,C06,C11,C17]
+//@     final(self).wf(), final(self).cap() == old(self).cap(),   // [~C01,~C02,C03,C05,~C06,~C11,~C17]
 //@     // C05: accepted if and only if the line's UTF-8 length stays within the command buffer
-//@     (r is Some) == (old(self).line_bytes().len() + text.spec_bytes().len() <= old(self).cap()),   // [C05,C01,C06]
+//@     (r is Some) == (old(self).line_bytes().len() + text.spec_bytes().len() <= old(self).cap()),   // [C05,~C01,~C06]
 //@     // C05: a rejected insertion changes nothing
-//@     r is None ==> final(self).line_bytes() == old(self).line_bytes() && final(self).cur() == old(self).cur(),   // [C05,C01,C06]
+//@     r is None ==> final(self).line_bytes() == old(self).line_bytes() && final(self).cur() == old(self).cur(),   // [C05,~C01,~C06]
 //@     // C05: the text goes in at the cursor, whatever the byte lengths of the characters involved
 //@     r is Some ==> ({
 //@         let c = old(self).cur() as int; let l = old(self).line();
 //@         &&& final(self).line() == l.subrange(0, c) + text@ + l.subrange(c, l.len() as int)
 //@         &&& final(self).cur() == c + text@.len()
-//@         &&& r.unwrap()@ == text@ }),   // [C05,C17,C01,C06]
+//@         &&& r.unwrap()@ == text@ }),   // [C05,C17,~C01,~C06]
 //@ ---
 //@ proof { broadcast use axiom_str_len_bound; broadcast use lemma_str_view_bytes; }
         let remaining = self.buffer.len() - self.valid;
@@ -274,7 +274,7 @@ impl<B: Buffer> Editor<B> {
 //@ let ghost old_bytes = self.line_bytes();
 //@ let ghost l = self.line();
 //@ let ghost c = self.cursor as int;
-//@ proof {   // [C05,C01,C06]
+//@ proof {   // [C05,~C01,~C06]
 //@     lemma_split_at_char(old_bytes, c);
 //@ }
 //@ let ghost b0 = self.buffer.bytes();
@@ -289,7 +289,7 @@ impl<B: Buffer> Editor<B> {
             self.valid
         };
 //@ let ghost b1 = self.buffer.bytes();
-//@ proof {   // [C05,C01,C06]
+//@ proof {   // [C05,~C01,~C06]
 //@     assert(cursor == off);
 //@     assert(b1.len() == b0.len());
 //@     assert(forall|i: int| 0 <= i < off ==> b1[i] == b0[i]);
@@ -301,7 +301,7 @@ impl<B: Buffer> Editor<B> {
             utils::copy_nonoverlapping(text, &mut self.buffer.as_slice_mut()[cursor..], text.len());
         }
 //@ let ghost b2 = self.buffer.bytes();
-//@ proof {   // [C05,C01,C06]
+//@ proof {   // [C05,~C01,~C06]
 //@     assert(b2.len() == b0.len());
 //@     assert(forall|i: int| 0 <= i < off ==> b2[i] == b0[i]);
 //@     assert(forall|i: int| off <= i < off + tl ==> b2[i] == text@[i - off]);
@@ -315,7 +315,7 @@ impl<B: Buffer> Editor<B> {
 //@ proof { assert(text@ =~= tb); }
         self.cursor += chars;
         self.valid += text.len();
-//@ proof {   // [C05,C01,C06]
+//@ proof {   // [C05,~C01,~C06]
 //@     assert(self.line_bytes() =~= old_bytes.subrange(0, off) + tb + old_bytes.subrange(off, old_bytes.len() as int));
 //@ }
         //SAFETY: we just copied valid utf-8 from &str to this location
@@ -324,15 +324,15 @@ impl<B: Buffer> Editor<B> {
 
     pub fn len(&self) -> usize {
 //@ requires self.wf_mem(),
-//@ ensures r == self.line().len(),   // [C05,C01,C06]
+//@ ensures r == self.line().len(),   // [C05,~C01,~C06]
         utils::char_count(self.text())
     }
 
     pub fn move_left(&mut self) -> bool {
 //@ requires old(self).wf(),
-//@ ensures final(self).wf(), final(self).line_bytes() == old(self).line_bytes(), final(self).cap() == old(self).cap(),   // [C01,C02,C03,C05,C06,C11,C17]
+//@ ensures final(self).wf(), final(self).line_bytes() == old(self).line_bytes(), final(self).cap() == old(self).cap(),   // [~C01,~C02,C03,C05,~C06,~C11,~C17]
 //@     // C05: Left moves by one whole character and stops at the start
-//@     r == (old(self).cur() > 0), final(self).cur() == (if old(self).cur() > 0 { old(self).cur() - 1 } else { 0 }) as nat,   // [C05,C01,C06]
+//@     r == (old(self).cur() > 0), final(self).cur() == (if old(self).cur() > 0 { old(self).cur() - 1 } else { 0 }) as nat,   // [C05,~C01,~C06]
         if self.cursor > 0 {
             self.cursor -= 1;
             true
@@ -343,10 +343,10 @@ impl<B: Buffer> Editor<B> {
 
     pub fn move_right(&mut self) -> bool {
 //@ requires old(self).wf(),
-//@ ensures final(self).wf(), final(self).line_bytes() == old(self).line_bytes(), final(self).cap() == old(self).cap(),   // [C01,C02,C03,C05,C06,C11,C17]
+//@ ensures final(self).wf(), final(self).line_bytes() == old(self).line_bytes(), final(self).cap() == old(self).cap(),   // [~C01,~C02,C03,C05,~C06,~C11,~C17]
 //@     // C05: Right moves by one whole character and stops at the end
 //@     r == (old(self).cur() < old(self).line().len()),
-//@     final(self).cur() == (if old(self).cur() < old(self).line().len() { old(self).cur() + 1 } else { old(self).cur() }),   // [C05,C01,C06]
+//@     final(self).cur() == (if old(self).cur() < old(self).line().len() { old(self).cur() + 1 } else { old(self).cur() }),   // [C05,~C01,~C06]
         if self.cursor < self.len() {
             self.cursor += 1;
             true
@@ -359,14 +359,14 @@ impl<B: Buffer> Editor<B> {
 //@ #[verifier::rlimit(60)]
     pub fn remove(&mut self) {
 //@ requires old(self).wf(),
-//@ ensures final(self).wf(), final(self).cap() == old(self).cap(), final(self).cur() == old(self).cur(),   // [C01,C02,C03,C05,C06,C11,C17]
+//@ ensures final(self).wf(), final(self).cap() == old(self).cap(), final(self).cur() == old(self).cur(),   // [~C01,~C02,C03,C05,~C06,~C11,~C17]
 //@     // C05: the character at the cursor is removed, whatever its byte length; at the end nothing happens
-//@     final(self).line() == (if old(self).cur() < old(self).line().len() { old(self).line().remove(old(self).cur() as int) } else { old(self).line() }),   // [C05,C17,C01,C06]
+//@     final(self).line() == (if old(self).cur() < old(self).line().len() { old(self).line().remove(old(self).cur() as int) } else { old(self).line() }),   // [C05,C17,~C01,~C06]
 //@ ---
 //@ let ghost bytes0 = self.line_bytes();
 //@ let ghost l = self.line();
 //@ let ghost c = self.cursor as int;
-//@ proof {   // [C05,C01,C06]
+//@ proof {   // [C05,~C01,~C06]
 //@     broadcast use lemma_str_view_bytes;
 //@     lemma_split_at_char(bytes0, c);
 //@     if c < l.len() { lemma_remove_valid(bytes0, c); lemma_byte_off_step(l, c); lemma_split_at_char(bytes0, c + 1); }
@@ -378,7 +378,7 @@ impl<B: Buffer> Editor<B> {
 //@     is_char_boundary_start_end_of_seq(bytes0);
 //@ }
             let text = unsafe { self.text().get_unchecked(cursor_pos..) };
-//@ proof {   // [C05,C01,C06]
+//@ proof {   // [C05,~C01,~C06]
 //@     assert(text.spec_bytes() == bytes0.subrange(cursor_pos as int, bytes0.len() as int));
 //@     encode_utf8_decode_utf8(l.subrange(c, l.len() as int));
 //@     assert(text@ == l.subrange(c, l.len() as int));
@@ -390,14 +390,14 @@ impl<B: Buffer> Editor<B> {
 
         match (cursor_pos, next_pos) {
             (Some(cursor), None) => {
-//@ proof {   // [C05,C01,C06]
+//@ proof {   // [C05,~C01,~C06]
 //@     assert(c == l.len() - 1);
 //@     lemma_truncate_valid(bytes0, c);
 //@     assert(l.remove(c) =~= l.subrange(0, c));
 //@ }
                 // we are at the last char, so just decrease valid size
                 self.valid = cursor;
-//@ proof { assert(self.line_bytes() =~= bytes0.subrange(0, cursor as int)); }   // [C05,C01,C06]
+//@ proof { assert(self.line_bytes() =~= bytes0.subrange(0, cursor as int)); }   // [C05,~C01,~C06]
             }
             (Some(cursor), Some(next)) => {
 //@ let ghost b0 = self.buffer.bytes();
@@ -405,7 +405,7 @@ impl<B: Buffer> Editor<B> {
                     .as_slice_mut()
                     .copy_within(next..self.valid, cursor);
                 self.valid -= next - cursor;
-//@ proof {   // [C05,C01,C06]
+//@ proof {   // [C05,~C01,~C06]
 //@     assert(self.line_bytes() =~= bytes0.subrange(0, cursor as int) + bytes0.subrange(next as int, bytes0.len() as int));
 //@ }
             }
@@ -415,7 +415,7 @@ impl<B: Buffer> Editor<B> {
 
     pub fn text(&self) -> &str {
 //@ requires self.wf_mem(),
-//@ ensures r@ == self.line(), r.spec_bytes() == self.line_bytes(),   // [C05,C01,C06]
+//@ ensures r@ == self.line(), r.spec_bytes() == self.line_bytes(),   // [C05,~C01,~C06]
         // SAFETY: buffer stores only valid utf-8 bytes 0..valid range
         unsafe {
             core::str::from_utf8_unchecked(self.buffer.as_slice().get_unchecked(..self.valid))
@@ -442,7 +442,7 @@ impl<B: Buffer> Editor<B> {
     #[allow(dead_code)]
     pub fn text_range(&self, range: core::ops::RangeFrom<usize>) -> &str {
 //@ requires self.wf_mem(),
-//@ ensures r@ == (if range.start < self.line().len() { self.line().subrange(range.start as int, self.line().len() as int) } else { Seq::<char>::empty() }),   // [C05,C11,C06]
+//@ ensures r@ == (if range.start < self.line().len() { self.line().subrange(range.start as int, self.line().len() as int) } else { Seq::<char>::empty() }),   // [C05,C11,~C06]
 //@ ---
 //@ proof {
 //@     broadcast use axiom_str_len_bound; broadcast use lemma_str_view_bytes; reveal_strlit("");
